@@ -33,10 +33,11 @@ package db
 
 import (
 	"context"
-	"encoding/binary"
+	"encoding/json"
 	"errors"
 	"fmt"
 	"math/rand"
+	"os"
 	"sort"
 	"strconv"
 	"strings"
@@ -94,7 +95,8 @@ func (s *vPLStore) WriteUpdateWithXattrs(ctx context.Context, k string, xattrKey
 		if err != nil {
 			return d, err // rejected before the write (409, sync function, already known)
 		}
-		switch w.park() {
+		w.noteAttempt(d)
+		switch w.decide() {
 		case "fail":
 			return d, errPLInjected
 		case "die":
@@ -173,11 +175,35 @@ type vPLWriter struct {
 	rev          string
 	seq          uint64
 	timeoutAfter bool
+	auto         string // storm: preset outcome of the CAS write ("go", "fail", "die"); "" = park and ask the harness
+	attSeq       uint64 // the numbers of the last attempt that reached the storage boundary
+	attUnused    []uint64
+	attempts     int
 }
 
 func (w *vPLWriter) park() string {
 	w.arrive <- struct{}{}
 	return <-w.gate
+}
+
+// decide: what happens to the CAS write this writer is about to make (replay: the harness says; storm: preset)
+func (w *vPLWriter) decide() string {
+	if w.auto != "" {
+		return w.auto
+	}
+	return w.park()
+}
+
+// noteAttempt reads, at the storage boundary, the numbers the update callback put into the _sync xattr it wants to store
+func (w *vPLWriter) noteAttempt(d sgbucket.UpdatedDoc) {
+	var sd struct {
+		Sequence uint64   `json:"sequence"`
+		Unused   []uint64 `json:"unused_sequences"`
+	}
+	if x, ok := d.Xattrs[base.SyncXattrName]; ok && json.Unmarshal(x, &sd) == nil {
+		w.attSeq, w.attUnused = sd.Sequence, sd.Unused
+		w.attempts++
+	}
 }
 
 type vPLEvKey struct {
@@ -875,10 +901,12 @@ func (g *vPLRig) runBehaviour(bi int, b vPLBeh, tw *vTraceWriter) {
 		}
 		return true
 	}
+	done := 0
 	for _, st := range b.Steps {
 		if !step(st) {
 			break // the real system left the scripted path (e.g. a mutated tree): finish what is in flight and let TLC judge
 		}
+		done++
 	}
 	// closing steps: writers finish, the feed delivers everything, the sweep runs, the clients ask once more
 	names := []string{}
@@ -921,7 +949,7 @@ func (g *vPLRig) runBehaviour(bi int, b vPLBeh, tw *vTraceWriter) {
 		}
 	}
 	ask()
-	emit(vObj{"a": "Quiesce", "phase": 1})
+	emit(vObj{"a": "Quiesce", "phase": 1, "done": done, "of": len(b.Steps)})
 	if g.c.getOldestSkippedSequence(g.ctx) != 0 {
 		step(vPLStep{A: "Abandon"})
 		ask() // the low sequence moved: a resume loop is now re-sent what arrived late below its position
@@ -972,5 +1000,766 @@ func TestVerif_Pipeline_Replay(t *testing.T) {
 	fmt.Printf("VERIF-TIMING Pipeline replay: %d behaviours in %v\n", len(behs), time.Since(t0))
 }
 
-var _ = rand.Int
-var _ = binary.LittleEndian
+// ---------------------------------------------------------------------------------------------------------------
+// Free-running storm
+// ---------------------------------------------------------------------------------------------------------------
+type vPLAttempt struct {
+	id     string
+	seq    uint64
+	unused []uint64
+	out    string
+	rev    string
+}
+
+type vPLQEvent struct {
+	ev      sgbucket.FeedEvent
+	dt      DocumentType
+	release time.Time
+	again   bool
+	key     string
+	seq     uint64
+	unused  []uint64
+	recent  []uint64
+	isDoc   bool
+}
+
+type vPLStorm struct {
+	t      *testing.T
+	db     *Database
+	ctx    context.Context
+	col    *DatabaseCollection
+	c      *changeCache
+	orig   DocChangedFunc
+	seqRec *vPLSeqStore
+	rnd    *rand.Rand
+
+	mu        sync.Mutex
+	raceKeys  map[string]bool
+	attempts  []vPLAttempt
+	queues    map[string][]*vPLQEvent // per key, in feed order
+	delivered []vObj
+	stats     map[string]int
+	draining  bool
+	prefix    string
+	compN     int64
+	seenDoc   int // document mutations of this storm the bucket's feed has handed over
+	seenNote  int // unused-sequence notices (single and range documents) it has handed over
+}
+
+func (g *vPLStorm) count(k string, n int) {
+	g.mu.Lock()
+	g.stats[k] += n
+	g.mu.Unlock()
+}
+
+// the feed: every event is queued per key (per-document order is kept); a dispatcher delivers it now or later
+func (g *vPLStorm) onFeed(ev sgbucket.FeedEvent, dt DocumentType) {
+	key := string(ev.Key)
+	q := &vPLQEvent{ev: ev, dt: dt, key: key, release: time.Now()}
+	switch dt {
+	case DocTypeDocument:
+		if !strings.HasPrefix(key, g.prefix) {
+			g.orig(ev, dt)
+			return
+		}
+		if _, sd, err := UnmarshalDocumentSyncDataFromFeed(ev.Value, ev.DataType, "", false); err == nil && sd != nil {
+			q.isDoc, q.seq, q.unused, q.recent = true, sd.Sequence, sd.UnusedSequences, sd.RecentSequences
+		}
+	case DocTypeUnusedSeq, DocTypeUnusedSeqRange:
+	default:
+		g.orig(ev, dt)
+		return
+	}
+	g.mu.Lock()
+	defer g.mu.Unlock()
+	g.stats["feed_events"]++
+	if q.isDoc {
+		g.seenDoc++
+	} else if dt != DocTypeDocument {
+		g.seenNote++
+	}
+	if !g.draining {
+		r := g.rnd.Intn(100)
+		switch {
+		case r < 30: // hold back: reordered across documents, possibly late
+			q.release = time.Now().Add(time.Duration(1+g.rnd.Intn(40)) * time.Millisecond)
+			g.stats["feed_delayed"]++
+		case r < 36:
+			q.again = true
+		}
+		// de-duplication by key: a later mutation replaces an undelivered earlier one of the same document
+		if q.isDoc && len(g.queues[key]) > 0 && g.rnd.Intn(2) == 0 {
+			g.queues[key] = g.queues[key][:len(g.queues[key])-1]
+			g.stats["feed_replaced"]++
+		}
+	}
+	g.queues[key] = append(g.queues[key], q)
+}
+
+// dispatch delivers the due heads of the queues of its partition (two partitions = two feed workers)
+func (g *vPLStorm) dispatch(part int, stop chan struct{}, wg *sync.WaitGroup) {
+	defer wg.Done()
+	for {
+		select {
+		case <-stop:
+			return
+		default:
+		}
+		now := time.Now()
+		var due []*vPLQEvent
+		g.mu.Lock()
+		for k, q := range g.queues {
+			if len(q) == 0 || int(k[len(k)-1])%2 != part {
+				continue
+			}
+			if g.draining || !q[0].release.After(now) {
+				due = append(due, q[0])
+				if q[0].again {
+					q[0].again = false
+					q[0].release = now.Add(time.Duration(1+g.rnd.Intn(20)) * time.Millisecond)
+					g.stats["feed_redelivered"]++
+				} else {
+					g.queues[k] = q[1:]
+				}
+			}
+		}
+		g.mu.Unlock()
+		for _, q := range due {
+			g.orig(q.ev, q.dt)
+			if q.isDoc {
+				g.mu.Lock()
+				g.delivered = append(g.delivered, vObj{"id": q.key, "seq": int(q.seq), "unused": vPLInts(q.unused), "recent": vPLInts(q.recent)})
+				g.mu.Unlock()
+			}
+		}
+		if len(due) == 0 {
+			time.Sleep(500 * time.Microsecond)
+		}
+	}
+}
+
+func (g *vPLStorm) queued() int {
+	g.mu.Lock()
+	defer g.mu.Unlock()
+	n := 0
+	for _, q := range g.queues {
+		n += len(q)
+	}
+	return n
+}
+
+func vPLInts(xs []uint64) []int {
+	o := []int{}
+	for _, x := range xs {
+		o = append(o, int(x))
+	}
+	return o
+}
+
+// write performs one tagged write and records what happened to the numbers it reserved
+func (g *vPLStorm) write(id, kind string, f func(ctx context.Context) (string, *Document, error)) {
+	w := &vPLWriter{name: kind, auto: "go"}
+	switch kind {
+	case "fail":
+		w.auto = "fail"
+	case "die":
+		w.auto = "die"
+	case "timeout":
+		w.timeoutAfter = true
+	}
+	rev, doc, err := f(context.WithValue(g.ctx, vPLCtxKey{}, w))
+	a := vPLAttempt{id: id, seq: w.attSeq, unused: w.attUnused, rev: rev}
+	switch {
+	case err == nil && doc != nil:
+		a.out = "ack"
+		a.seq = doc.Sequence
+		g.count("writes_acknowledged", 1)
+		if w.attempts > 1 {
+			g.count("cas_retried_writes", 1)
+		}
+	case err == nil:
+		a.out = "noop" // cancelled update (revision already known)
+	case base.IsTimeoutError(err) && kind == "timeout":
+		a.out = "timeout_applied"
+		g.count("writes_timeout_applied", 1)
+	case base.IsTimeoutError(err):
+		a.out = "die"
+		g.count("writes_timeout_not_applied", 1)
+	case kind == "fail":
+		a.out = "fail"
+		g.count("writes_storage_error", 1)
+	default:
+		a.out = "conflict" // 409 / forbidden / anything else that is not a timeout: numbers must have been published
+		if strings.Contains(err.Error(), "403") || strings.Contains(strings.ToLower(err.Error()), "forbidden") {
+			g.count("writes_rejected_by_sync_function", 1)
+		} else {
+			g.count("writes_409", 1)
+		}
+		if w.attempts > 0 {
+			g.count("cas_retried_writes", 1)
+		}
+	}
+	if a.seq != 0 || a.out == "ack" {
+		g.mu.Lock()
+		g.attempts = append(g.attempts, a)
+		g.mu.Unlock()
+	}
+}
+
+func (g *vPLStorm) currentRev(id string) (string, bool) {
+	doc, err := g.col.GetDocument(g.ctx, id, DocUnmarshalSync)
+	if err != nil || doc == nil {
+		return "", false
+	}
+	return doc.GetRevTreeID(), doc.IsDeleted()
+}
+
+func vPLStormRun(t *testing.T, round int, seed int64, nWrites int) vObj {
+	rnd := rand.New(rand.NewSource(seed))
+	conflicts := round%2 == 1
+	opts := DefaultCacheOptions()
+	opts.CachePendingSeqMaxWait = 5 * time.Millisecond
+	opts.CachePendingSeqMaxNum = 1 + rnd.Intn(3)
+	opts.CacheSkippedSeqMaxWait = time.Hour // nothing is given up on while events are merely late
+	opts.BroadcastChangesInterval = 5 * time.Millisecond
+	opts.SkippedSequenceBroadcastInterval = 10 * time.Millisecond
+	g := &vPLStorm{t: t, rnd: rand.New(rand.NewSource(seed + 7)), raceKeys: map[string]bool{}, queues: map[string][]*vPLQEvent{}, stats: map[string]int{},
+		prefix: fmt.Sprintf("st%d_", round)}
+	tb := base.GetTestBucket(t)
+	var cu *DatabaseCollectionWithUser
+	lb := base.NewLeakyBucket(tb, base.LeakyBucketConfig{UpdateCallback: func(key string) {
+		// the CAS window of a writer: a competing write of the same document commits first
+		g.mu.Lock()
+		hit := g.raceKeys[key]
+		delete(g.raceKeys, key)
+		g.mu.Unlock()
+		if hit && cu != nil {
+			g.write(key, "competitor", func(ctx context.Context) (string, *Document, error) {
+				rev, _ := g.currentRev(key)
+				if conflicts {
+					pg := 0
+					if rev != "" {
+						pg, _ = ParseRevID(ctx, rev)
+					}
+					nr := fmt.Sprintf("%d-c%06d", pg+1, atomic.AddInt64(&g.compN, 1))
+					hist := []string{nr}
+					if rev != "" {
+						hist = append(hist, rev)
+					}
+					doc, _, err := cu.PutExistingRevWithBody(ctx, key, Body{"k": "competitor"}, hist, false, ExistingVersionWithUpdateToHLV)
+					return nr, doc, err
+				}
+				body := Body{"k": "competitor"}
+				if rev != "" {
+					body[BodyRev] = rev
+				}
+				return cu.Put(ctx, key, body)
+			})
+		}
+	}})
+	db, ctx := SetupTestDBForBucketWithOptions(t, lb, DatabaseContextOptions{CacheOptions: &opts, AllowConflicts: base.Ptr(conflicts)})
+	defer db.Close(ctx)
+	g.db, g.ctx, g.c = db, ctx, &db.changeCache
+	g.col = GetSingleDatabaseCollection(t, db.DatabaseContext)
+	if _, err := g.col.UpdateSyncFun(ctx, `function(doc){ if (doc.reject) { throw({forbidden: "rejected"}); } channel("pl"); }`); err != nil {
+		t.Fatalf("VERIF-FATAL Pipeline storm: sync function: %v", err)
+	}
+	vs, _ := g.col.dataStore.(sgbucket.ViewStore)
+	g.col.dataStore = &vPLStore{DataStore: g.col.dataStore, ViewStore: vs}
+	cu = &DatabaseCollectionWithUser{DatabaseCollection: g.col}
+	g.seqRec = &vPLSeqStore{DataStore: db.sequences.datastore}
+	db.sequences.mutex.Lock()
+	db.sequences.datastore = g.seqRec
+	db.sequences.mutex.Unlock()
+	// warm-up: activate the all-documents channel cache and burn the first sequence
+	oneshot := func(since string) (rows []vObj, last string) {
+		sid, err := ParsePlainSequenceID(since)
+		if err != nil {
+			t.Fatalf("VERIF-FATAL Pipeline storm: since %q: %v", since, err)
+		}
+		feed, err := cu.MultiChangesFeed(ctx, base.SetOf("*"), ChangesOptions{Since: sid, ChangesCtx: ctx})
+		if err != nil {
+			t.Fatalf("VERIF-FATAL Pipeline storm: MultiChangesFeed: %v", err)
+		}
+		last = since
+		rows = []vObj{}
+		for e := range feed {
+			if e == nil || e.Err != nil {
+				continue
+			}
+			rev := ""
+			if len(e.Changes) > 0 {
+				rev = e.Changes[0][ChangesVersionTypeRevTreeID]
+			}
+			if strings.HasPrefix(e.ID, g.prefix) {
+				rows = append(rows, vObj{"id": e.ID, "seq": int(e.Seq.Seq), "l": int(e.Seq.LowSeq), "rev": rev, "str": e.Seq.String()})
+			}
+			last = e.Seq.String()
+		}
+		return rows, last
+	}
+	oneshot("0")
+	if _, _, err := cu.Put(ctx, "plwarm", Body{"k": 0}); err != nil {
+		t.Fatalf("VERIF-FATAL Pipeline storm: warm-up: %v", err)
+	}
+	for deadline := time.Now().Add(vPLWaitMax); db.changeCache.getNextSequence() < 2; {
+		if time.Now().After(deadline) {
+			t.Fatalf("VERIF-FATAL Pipeline storm: warm-up write never cached")
+		}
+		time.Sleep(time.Millisecond)
+	}
+	db.sequences.releaseUnusedSequences(ctx)
+	time.Sleep(20 * time.Millisecond)
+	c0, err := db.sequences.getSequence(ctx)
+	if err != nil {
+		t.Fatalf("VERIF-FATAL Pipeline storm: counter: %v", err)
+	}
+	g.seqRec.reset()
+	g.orig = db.mutationListener.OnChangeCallback
+	db.mutationListener.OnChangeCallback = g.onFeed
+	stopDisp := make(chan struct{})
+	var dwg sync.WaitGroup
+	for p := 0; p < 2; p++ {
+		dwg.Add(1)
+		go g.dispatch(p, stopDisp, &dwg)
+	}
+
+	// clients: a one-shot resume loop and a continuous feed, both from the start position
+	start := fmt.Sprint(c0)
+	var cmu sync.Mutex
+	osResps := [][]vObj{}
+	osTok := start
+	stopOS := make(chan struct{})
+	osDone := make(chan struct{})
+	askOnce := func() int {
+		rows, last := oneshot(osTok)
+		cmu.Lock()
+		osResps = append(osResps, rows)
+		osTok = last
+		cmu.Unlock()
+		return len(rows)
+	}
+	go func() {
+		defer close(osDone)
+		for {
+			select {
+			case <-stopOS:
+				return
+			default:
+			}
+			askOnce()
+			time.Sleep(3 * time.Millisecond)
+		}
+	}()
+	fctx, cancel := context.WithCancel(ctx)
+	sid, _ := ParsePlainSequenceID(start)
+	ctFeed, err := cu.MultiChangesFeed(fctx, base.SetOf("*"), ChangesOptions{Since: sid, Continuous: true, Wait: true, ChangesCtx: fctx})
+	if err != nil || ctFeed == nil {
+		t.Fatalf("VERIF-FATAL Pipeline storm: continuous feed: %v", err)
+	}
+	ctRows := []vObj{}
+	lastRow := time.Now()
+	ctDone := make(chan struct{})
+	go func() {
+		defer close(ctDone)
+		for e := range ctFeed {
+			if e == nil || e.Err != nil {
+				continue
+			}
+			rev := ""
+			if len(e.Changes) > 0 {
+				rev = e.Changes[0][ChangesVersionTypeRevTreeID]
+			}
+			if strings.HasPrefix(e.ID, g.prefix) {
+				cmu.Lock()
+				ctRows = append(ctRows, vObj{"id": e.ID, "seq": int(e.Seq.Seq), "l": int(e.Seq.LowSeq), "rev": rev, "str": e.Seq.String()})
+				lastRow = time.Now()
+				cmu.Unlock()
+			}
+		}
+	}()
+
+	// writers
+	nWriters := 4
+	shared := []string{}
+	for i := 0; i < 5; i++ {
+		shared = append(shared, fmt.Sprintf("%ss%d", g.prefix, i))
+	}
+	var wg sync.WaitGroup
+	for wi := 0; wi < nWriters; wi++ {
+		wg.Add(1)
+		go func(wi int, r *rand.Rand) {
+			defer wg.Done()
+			own := []string{fmt.Sprintf("%sw%d_%d", g.prefix, wi, 0), fmt.Sprintf("%sw%d_%d", g.prefix, wi, 1)}
+			retired := 0
+			for i := 0; i < nWrites/nWriters; i++ {
+				id := own[r.Intn(2)]
+				if r.Intn(3) == 0 {
+					id = shared[r.Intn(len(shared))]
+				}
+				rev, deleted := g.currentRev(id)
+				put := func(body Body) func(ctx context.Context) (string, *Document, error) {
+					return func(ctx context.Context) (string, *Document, error) {
+						if conflicts {
+							pg := 0
+							if rev != "" {
+								pg, _ = ParseRevID(ctx, rev)
+							}
+							nr := fmt.Sprintf("%d-w%d%05d", pg+1, wi, i)
+							hist := []string{nr}
+							if rev != "" {
+								hist = append(hist, rev)
+							}
+							doc, _, err := cu.PutExistingRevWithBody(ctx, id, body, hist, false, ExistingVersionWithUpdateToHLV)
+							return nr, doc, err
+						}
+						if rev != "" {
+							body[BodyRev] = rev
+						}
+						return cu.Put(ctx, id, body)
+					}
+				}
+				switch k := r.Intn(100); {
+				case k < 45:
+					g.write(id, "put", put(Body{"k": i, "w": wi}))
+				case k < 55:
+					g.write(id, "reject", put(Body{"k": i, "reject": true}))
+				case k < 70:
+					g.mu.Lock()
+					g.raceKeys[id] = true
+					g.mu.Unlock()
+					g.write(id, "raced", put(Body{"k": i, "raced": true}))
+					g.mu.Lock()
+					delete(g.raceKeys, id)
+					g.mu.Unlock()
+				case k < 80:
+					if rev != "" && !deleted && !conflicts && (id == own[0] || id == own[1]) {
+						g.count("deletes", 1)
+						g.write(id, "delete", func(ctx context.Context) (string, *Document, error) {
+							return cu.DeleteDoc(ctx, id, DocVersion{RevTreeID: rev})
+						})
+						// a deleted document is not written again (resurrecting a tombstone is C05's recorded finding)
+						retired++
+						if id == own[0] {
+							own[0] = fmt.Sprintf("%sw%d_%d", g.prefix, wi, 1+retired)
+						} else {
+							own[1] = fmt.Sprintf("%sw%d_%d", g.prefix, wi, 1+retired)
+						}
+					} else {
+						g.write(id, "put", put(Body{"k": i, "w": wi}))
+					}
+				case k < 87:
+					g.write(id, "fail", put(Body{"k": i, "f": 1}))
+				case k < 93:
+					g.write(id, "die", put(Body{"k": i, "d": 1}))
+				default:
+					g.write(id, "timeout", put(Body{"k": i, "t": 1}))
+				}
+				if r.Intn(4) == 0 {
+					time.Sleep(time.Duration(r.Intn(3)) * time.Millisecond)
+				}
+			}
+		}(wi, rand.New(rand.NewSource(rnd.Int63())))
+	}
+	wg.Wait()
+
+	// quiescence: the allocator returns what it still holds, the feed delivers everything, the cache's own sweeps run
+	db.sequences.releaseUnusedSequences(ctx)
+	c1, err := db.sequences.getSequence(ctx)
+	if err != nil {
+		t.Fatalf("VERIF-FATAL Pipeline storm: counter: %v", err)
+	}
+	noticeKeys := g.seqRec.take()
+	// the bucket's feed has handed over every mutation the writers committed and every notice the allocator wrote
+	handedOver := func() bool {
+		g.mu.Lock()
+		defer g.mu.Unlock()
+		want := 0
+		for _, a := range g.attempts {
+			if a.out == "ack" || a.out == "timeout_applied" {
+				want++
+			}
+		}
+		return g.seenDoc >= want && g.seenNote >= len(noticeKeys)
+	}
+	for deadline := time.Now().Add(30 * time.Second); !handedOver() && time.Now().Before(deadline); {
+		time.Sleep(time.Millisecond)
+	}
+	feedComplete := handedOver()
+	feedSettled := func() bool { return g.queued() == 0 }
+	g.mu.Lock()
+	g.draining = true
+	g.mu.Unlock()
+	dead := map[uint64]bool{}
+	g.mu.Lock()
+	for _, a := range g.attempts {
+		if a.out == "die" {
+			dead[a.seq] = true
+			for _, u := range a.unused {
+				dead[u] = true
+			}
+		}
+	}
+	g.mu.Unlock()
+	top := uint64(0)
+	for s := c0 + 1; s <= c1; s++ {
+		if !dead[s] {
+			top = s
+		}
+	}
+	quiet := func() bool {
+		if !feedSettled() {
+			return false
+		}
+		g.c.lock.RLock()
+		defer g.c.lock.RUnlock()
+		return len(g.c.pendingLogs) == 0 && g.c.nextSequence > top
+	}
+	waited := time.Now()
+	for deadline := time.Now().Add(45 * time.Second); !quiet() && time.Now().Before(deadline); {
+		time.Sleep(2 * time.Millisecond)
+	}
+	time.Sleep(30 * time.Millisecond)
+	settle := time.Since(waited)
+	snap := func() vObj {
+		g.c.lock.RLock()
+		o := vObj{"next": int(g.c.nextSequence), "pend": len(g.c.pendingLogs)}
+		skip := []int{}
+		for s := c0 + 1; s <= c1+1; s++ {
+			if g.c.WasSkipped(s) {
+				skip = append(skip, int(s))
+			}
+		}
+		o["skip"] = skip
+		o["stable"] = int(g.c._getMaxStableCached(ctx))
+		g.c.lock.RUnlock()
+		return o
+	}
+	cache1 := snap()
+	cumSkipped := int(g.c.skippedSeqs.getStats().NumCumulativeSkippedSequencesStat)
+	g.count("skipped_total", cumSkipped)
+	// clients catch up: the resume loop until two empty answers in a row, the continuous feed until it has been silent
+	close(stopOS)
+	<-osDone
+	for empty, guard := 0, 0; empty < 2 && guard < 200; guard++ {
+		if askOnce() == 0 {
+			empty++
+		} else {
+			empty = 0
+		}
+	}
+	for deadline := time.Now().Add(20 * time.Second); time.Now().Before(deadline); {
+		cmu.Lock()
+		silent := time.Since(lastRow)
+		cmu.Unlock()
+		if silent > 1500*time.Millisecond {
+			break
+		}
+		time.Sleep(10 * time.Millisecond)
+	}
+	// the abandonment sweep (forced): reservations that died are given up on; the resume loop asks again
+	g.c.lock.Lock()
+	g.c.options.CacheSkippedSeqMaxWait = 0
+	g.c.lock.Unlock()
+	_ = g.c.CleanSkippedSequenceQueue(ctx)
+	for empty, guard := 0, 0; empty < 2 && guard < 200; guard++ {
+		if askOnce() == 0 {
+			empty++
+		} else {
+			empty = 0
+		}
+	}
+	cache2 := snap()
+	cancel()
+	db.DatabaseContext.NotifyTerminatedChanges(ctx, "")
+	select {
+	case <-ctDone:
+	case <-time.After(5 * time.Second):
+	}
+	close(stopDisp)
+	dwg.Wait()
+
+	// ground truth: the bucket, the writers' acknowledgements, the allocator's notices
+	ids := map[string]bool{}
+	g.mu.Lock()
+	atts := []vObj{}
+	for _, a := range g.attempts {
+		ids[a.id] = true
+		atts = append(atts, vObj{"id": a.id, "seq": int(a.seq), "unused": vPLInts(a.unused), "out": a.out, "rev": a.rev})
+	}
+	delivered := append([]vObj{}, g.delivered...)
+	stats := vObj{}
+	for k, v := range g.stats {
+		stats[k] = v
+	}
+	g.mu.Unlock()
+	docs := []vObj{}
+	idl := []string{}
+	for id := range ids {
+		idl = append(idl, id)
+	}
+	sort.Strings(idl)
+	_, entries := func() (uint64, []*LogEntry) {
+		sc, err := db.changeCache.getChannelCache().getSingleChannelCache(ctx, channels.NewID(channels.UserStarChannel, g.col.GetCollectionID()))
+		if err != nil {
+			return 0, nil
+		}
+		if impl, ok := sc.(*singleChannelCacheImpl); ok {
+			return impl.GetCachedChanges(ChangesOptions{Since: SequenceID{Seq: 0}})
+		}
+		return 0, nil
+	}()
+	cached := map[string]int{}
+	for _, e := range entries {
+		cached[e.DocID] = int(e.Sequence)
+	}
+	for _, id := range idl {
+		doc, err := g.col.GetDocument(ctx, id, DocUnmarshalAll)
+		if err != nil || doc == nil {
+			continue
+		}
+		docs = append(docs, vObj{"id": id, "seq": int(doc.Sequence), "rev": doc.GetRevTreeID(), "recent": vPLInts(doc.RecentSequences), "unused": vPLInts(doc.UnusedSequences),
+			"chan": cached[id]})
+	}
+	notices := []int{}
+	notPfx, rngPfx := db.MetadataKeys.UnusedSeqPrefix(), db.MetadataKeys.UnusedSeqRangePrefix()
+	for _, k := range append(noticeKeys, g.seqRec.take()[len(noticeKeys):]...) {
+		if rest, ok := strings.CutPrefix(k, rngPfx); ok {
+			p := strings.Split(rest, ":")
+			if len(p) == 2 {
+				f, _ := strconv.ParseUint(p[0], 10, 64)
+				to, _ := strconv.ParseUint(p[1], 10, 64)
+				for s := f; s <= to && s-f < 100000; s++ {
+					notices = append(notices, int(s))
+				}
+			}
+		} else if rest, ok := strings.CutPrefix(k, notPfx); ok {
+			if s, err := strconv.ParseUint(rest, 10, 64); err == nil {
+				notices = append(notices, int(s))
+			}
+		}
+	}
+	sort.Ints(notices)
+	deadl := []int{}
+	for s := range dead {
+		deadl = append(deadl, int(s))
+	}
+	sort.Ints(deadl)
+	cmu.Lock()
+	defer cmu.Unlock()
+	nrows, ncomp := 0, 0
+	for _, r := range osResps {
+		nrows += len(r)
+		for _, x := range r {
+			if x["l"].(int) != 0 {
+				ncomp++
+			}
+		}
+	}
+	nonEmpty := [][]vObj{}
+	for _, r := range osResps {
+		if len(r) > 0 {
+			nonEmpty = append(nonEmpty, r)
+		}
+	}
+	stats["oneshot_requests"], stats["oneshot_rows"], stats["compound_tokens"], stats["continuous_rows"] = len(osResps), nrows, ncomp, len(ctRows)
+	stats["numbers_reserved"], stats["notices"] = int(c1-c0), len(notices)
+	stats["late_arrivals"] = cumSkipped - len(cache1["skip"].([]int)) // skipped, then arrived (or declared unused) after all
+	stats["settle_ms"] = int(settle / time.Millisecond)
+	if !feedComplete {
+		stats["feed_incomplete"] = 1
+	}
+	lt, err := ParsePlainSequenceID(osTok)
+	if err != nil {
+		t.Fatalf("VERIF-FATAL Pipeline storm: last token %q: %v", osTok, err)
+	}
+	return vObj{"a": "Storm", "round": round, "seed": int(seed), "cfg": vObj{"mn": opts.CachePendingSeqMaxNum, "conflicts": conflicts}, "c0": int(c0), "c1": int(c1),
+		"docs": docs, "attempts": atts, "notices": notices, "dead": deadl, "delivered": delivered, "cache1": cache1, "cache2": cache2, "top": int(top),
+		"os": vObj{"resps": nonEmpty, "last": []int{int(lt.LowSeq), int(lt.Seq)}}, "ct": vObj{"rows": ctRows}, "stats": stats}
+}
+
+func TestVerif_Pipeline_Storm(t *testing.T) {
+	p := os.Getenv("VERIF_TRACE_OUT_FREE")
+	if p == "" {
+		t.Skip("VERIF_TRACE_OUT_FREE not set (harness is driven by /verif/bin/vcheck)")
+	}
+	f, err := os.OpenFile(p, os.O_CREATE|os.O_WRONLY|os.O_APPEND, 0o644)
+	if err != nil {
+		t.Fatalf("VERIF-FATAL cannot open %s: %v", p, err)
+	}
+	defer f.Close()
+	rounds := vEnvInt("VERIF_PIPELINE_STORMS", 2)
+	writes := vEnvInt("VERIF_PIPELINE_STORM_WRITES", 40)
+	for r := 0; r < rounds; r++ {
+		line := vPLStormRun(t, r, vSeed()*1000+int64(r), writes)
+		b, err := json.Marshal(line)
+		if err != nil {
+			t.Fatalf("VERIF-FATAL marshal: %v", err)
+		}
+		f.Write(append(b, '\n'))
+	}
+}
+
+// ---------------------------------------------------------------------------------------------------------------
+// The cache's own abandonment timer: a reservation that never arrives is skipped after CachePendingSeqMaxWait and given
+// up on by CleanSkippedSequenceQueue after CacheSkippedSeqMaxWait (2 s here; the task runs every second).
+// ---------------------------------------------------------------------------------------------------------------
+func TestVerif_Pipeline_Abandon(t *testing.T) {
+	p := os.Getenv("VERIF_TRACE_OUT_FREE")
+	if p == "" {
+		t.Skip("VERIF_TRACE_OUT_FREE not set (harness is driven by /verif/bin/vcheck)")
+	}
+	f, err := os.OpenFile(p, os.O_CREATE|os.O_WRONLY|os.O_APPEND, 0o644)
+	if err != nil {
+		t.Fatalf("VERIF-FATAL cannot open %s: %v", p, err)
+	}
+	defer f.Close()
+	defer SuspendSequenceBatching()()
+	opts := DefaultCacheOptions()
+	opts.CachePendingSeqMaxWait = 10 * time.Millisecond
+	opts.CachePendingSeqMaxNum = 50
+	opts.CacheSkippedSeqMaxWait = 2 * time.Second
+	db, ctx := SetupTestDBWithOptions(t, DatabaseContextOptions{CacheOptions: &opts})
+	defer db.Close(ctx)
+	col := GetSingleDatabaseCollection(t, db.DatabaseContext)
+	vs, _ := col.dataStore.(sgbucket.ViewStore)
+	col.dataStore = &vPLStore{DataStore: col.dataStore, ViewStore: vs}
+	cu := &DatabaseCollectionWithUser{DatabaseCollection: col}
+	wait := func(what string, max time.Duration, cond func() bool) bool {
+		for deadline := time.Now().Add(max); time.Now().Before(deadline); {
+			if cond() {
+				return true
+			}
+			time.Sleep(2 * time.Millisecond)
+		}
+		return cond()
+	}
+	if _, _, err := cu.Put(ctx, "plab0", Body{"k": 0}); err != nil {
+		t.Fatalf("VERIF-FATAL Pipeline abandon: %v", err)
+	}
+	if !wait("warm-up", vPLWaitMax, func() bool { return db.changeCache.getNextSequence() >= 2 }) {
+		t.Fatalf("VERIF-FATAL Pipeline abandon: warm-up write never cached")
+	}
+	c0, _ := db.sequences.getSequence(ctx)
+	// a write that times out without effect: its number stays reserved
+	w := &vPLWriter{name: "die", auto: "die"}
+	_, _, derr := cu.Put(context.WithValue(ctx, vPLCtxKey{}, w), "plab1", Body{"k": 1})
+	// ... and one that follows it
+	_, doc2, err := cu.Put(ctx, "plab2", Body{"k": 2})
+	if err != nil || doc2 == nil {
+		t.Fatalf("VERIF-FATAL Pipeline abandon: second write: %v", err)
+	}
+	c1, _ := db.sequences.getSequence(ctx)
+	deadSeq := w.attSeq
+	sawSkipped := wait("skip", 30*time.Second, func() bool { return db.changeCache.WasSkipped(deadSeq) })
+	t0 := time.Now()
+	cleared := wait("abandon", 60*time.Second, func() bool { return db.changeCache.getOldestSkippedSequence(ctx) == 0 })
+	db.changeCache.lock.RLock()
+	next, stable := db.changeCache.nextSequence, db.changeCache._getMaxStableCached(ctx)
+	db.changeCache.lock.RUnlock()
+	line := vObj{"a": "TimerAbandon", "c0": int(c0), "c1": int(c1), "dead": []int{int(deadSeq)}, "timeout_error": derr != nil && base.IsTimeoutError(derr),
+		"second": int(doc2.Sequence), "saw_skipped": sawSkipped, "cleared": cleared, "cleared_after_ms": int(time.Since(t0) / time.Millisecond),
+		"next": int(next), "stable": int(stable), "abandoned": int(db.DbStats.Cache().AbandonedSeqs.Value())}
+	b, _ := json.Marshal(line)
+	f.Write(append(b, '\n'))
+}
